@@ -28,6 +28,10 @@ class Ref:
     self.df = n - 2
     self.sigma2 = float((self.resid ** 2).sum()) / (n - 2)
     self.sigma = math.sqrt(self.sigma2)
+    syy = float(((y_pre - self.ybar) ** 2).sum())
+    # (numerically) perfect pre-period fit: the residual variance is rounding noise, the posterior scale is
+    # meaningless -> callers treat the case as degenerate ("positive residual variance" is presupposed)
+    self.zero_resid = (syy == 0.0) or (float((self.resid ** 2).sum()) <= 1e-20 * max(syy, float((y_pre ** 2).sum())))
     self.pred = self.a + self.b * x_test
     self.effect = y_test - self.pred
     self.loc = np.cumsum(self.effect)
